@@ -8,6 +8,7 @@ import (
 	"golang.org/x/tools/go/ssa"
 
 	"xpcheck/internal/cfgx"
+	"xpcheck/internal/flow"
 	"xpcheck/internal/load"
 )
 
@@ -55,6 +56,7 @@ func ErrorDiscipline(c *Ctx, id string, floor int) {
 		fns = append(fns, closures(f)...)
 	}
 	sort.Slice(fns, func(i, j int) bool { return fns[i].Pos() < fns[j].Pos() })
+	statelessness(c, fns)
 	for _, fn := range fns {
 		nres := fn.Signature.Results().Len()
 		if nres == 0 || fn.Signature.Results().At(nres-1).Type().String() != "error" {
@@ -428,4 +430,107 @@ func testedOnly(c *Ctx, fn *ssa.Function, call ssa.CallInstruction, ev *cfgx.Err
 	c.R.Check(bad == "", load.FuncName(fn)+": "+site(call)+" failure visible", c.pos(call.Pos()),
 		"the error of this step is used for more than a nil test, or no success return follows its failure",
 		"the error of this step is only compared with nil - never returned, wrapped or logged - and the function can then return success at "+bad+": the failure is dropped")
+}
+
+// keptState: "<type>.<field>" (or "<package>.<var>") the mechanism legitimately keeps between invocations
+var keptState = map[string]string{
+	"internal/dag.MapDag.nodes":                             "the graph object is built for one resolution; filling it is what its methods are for",
+	"internal/dag.MapUpgradingDag.nodes":                    "the graph object is built for one resolution; filling it is what its methods are for",
+	"internal/controller/rbac/provider/roles.node.allowed":  "the allow tree is built per validation (R18.6 requires a fresh one)",
+	"internal/controller/rbac/provider/roles.node.children": "the allow tree is built per validation (R18.6 requires a fresh one)",
+	"internal/engine.ControllerEngine.controllers":          "the engine's bookkeeping of running controllers: the subject of C13's lock and bookkeeping rules",
+	"internal/engine.InformerTrackingCache.active":          "the engine's bookkeeping of active informers: the subject of C13's rules",
+	"internal/engine.StoppableSource.reg":                   "the handler registration a source must remember to be able to remove it (R13.9)",
+	"internal/xfn.PackagedFunctionRunner.conns":             "the gRPC connection cache, governed by R4.6 (target compared with the active revision's endpoint on every use)",
+	"internal/xpkg.teeReadCloser.err":                       "the read error of one package stream, handed to the cache writer (R15.7)",
+}
+
+// statelessness: the functions of the mechanism do not write state that outlives
+// the invocation - a field of their receiver, a package-level variable - other
+// than what is tabled in keptState. A decision taken from such state (a memo of
+// the last content reconciled, a cache of a listing) rests on an earlier read.
+func statelessness(c *Ctx, fns []*ssa.Function) {
+	found := map[string]string{}
+	note := func(key string, at ssa.Instruction) {
+		if _, ok := found[key]; !ok {
+			found[key] = c.pos(at.Pos())
+		}
+	}
+	for _, fn := range fns {
+		root := fn
+		for root.Parent() != nil {
+			root = root.Parent()
+		}
+		if root.Signature.Recv() == nil && len(root.Params) == 0 {
+			continue
+		}
+		var recv ssa.Value
+		if root.Signature.Recv() != nil && len(root.Params) > 0 {
+			recv = root.Params[0]
+		}
+		fieldOf := func(addr ssa.Value) string {
+			// addr (or the value loaded from it) is a field of the receiver, possibly nested
+			for i := 0; i < 6; i++ {
+				switch a := addr.(type) {
+				case *ssa.UnOp:
+					addr = a.X
+					continue
+				case *ssa.FieldAddr:
+					r := flow.Root(a.X)
+					if fv, ok := r.(*ssa.FreeVar); ok && recv != nil && fv.Name() == recv.Name() {
+						r = recv
+					}
+					if recv != nil && r == recv {
+						tn := strings.TrimPrefix(recv.Type().String(), "*")
+						if strings.Contains(tn, "/apis/") {
+							return "" // API objects are data: their setters write the object at hand
+						}
+						return tn + "." + fieldName(a.X.Type(), a.Field)
+					}
+					addr = a.X
+					continue
+				case *ssa.Global:
+					return a.Pkg.Pkg.Path() + "." + a.Name()
+				}
+				break
+			}
+			return ""
+		}
+		for _, b := range fn.Blocks {
+			for _, in := range b.Instrs {
+				switch in := in.(type) {
+				case *ssa.Store:
+					if k := fieldOf(in.Addr); k != "" {
+						note(k, in)
+					}
+				case *ssa.MapUpdate:
+					if k := fieldOf(in.Map); k != "" {
+						note(k, in)
+					}
+				case ssa.CallInstruction:
+					n := cfgx.CalleeName(in)
+					if strings.HasPrefix(n, "(*sync.Map).") && (strings.HasSuffix(n, ".Store") || strings.HasSuffix(n, ".LoadOrStore") || strings.HasSuffix(n, ".Swap") || strings.HasSuffix(n, ".CompareAndSwap")) {
+						if k := fieldOf(cfgx.Receiver(in)); k != "" {
+							note(k, in)
+						}
+					}
+					if b, ok := in.Common().Value.(*ssa.Builtin); ok && b.Name() == "delete" && len(in.Common().Args) > 0 {
+						if k := fieldOf(in.Common().Args[0]); k != "" {
+							note(k, in)
+						}
+					}
+				}
+			}
+		}
+	}
+	var keys []string
+	for k := range found {
+		keys = append(keys, k)
+	}
+	sort.Strings(keys)
+	for _, k := range keys {
+		short := strings.TrimPrefix(k, "github.com/crossplane/crossplane/")
+		_, ok := keptState[short]
+		c.R.Check(ok, "state kept by the mechanism: "+short, found[k], "tabled: "+keptState[short], "a function of the mechanism writes "+short+", which outlives the invocation and is not among the state the mechanism is known to keep: a later decision can rest on what an earlier invocation saw (memo, cache) instead of on what is read now")
+	}
 }
